@@ -501,15 +501,18 @@ func init() {
 		if c, ok := args[0].(int64); ok {
 			return strconv.FormatInt(c, int(args[1].(int64)))
 		}
-		in.unsupported("strconv.FormatInt of a symbolic integer (formatted symbolic numbers have no concrete length)")
-		return nil
+		// interpret the library's own FormatInt: the digit-count loop forks per magnitude class (at most 20 per sign)
+		// and every digit becomes an ite chain over strconv's digit table
+		if fn.Blocks == nil {
+			fn.Pkg.Build()
+		}
+		return in.callSSA(caller, fn, in.plainInfo(fn), args, nil)
 	}
 	intrinsics["strconv.Itoa"] = func(in *Interp, caller *frame, fn *ssa.Function, args []Value) Value {
 		if c, ok := args[0].(int64); ok {
 			return strconv.Itoa(int(c))
 		}
-		in.unsupported("strconv.Itoa of a symbolic integer (formatted symbolic numbers have no concrete length)")
-		return nil
+		return in.formatSymInt(caller, args[0], true)
 	}
 	delete(natives, "math.Float64bits")
 	delete(natives, "math.Float64frombits")
@@ -923,12 +926,20 @@ func (in *Interp) formatArg(a Iface, verb byte, spec string) Value {
 		if !ok {
 			return "%!d(" + typeStringForFmt(a.T) + ")"
 		}
-		c, ok := v.(int64)
-		if !ok {
-			in.unsupported("fmt %d of symbolic integer")
-		}
 		if spec != "" {
 			in.unsupported("fmt verb %" + spec + "d")
+		}
+		c, ok := v.(int64)
+		if !ok {
+			t := v.(*term.T)
+			if ii.w < 64 {
+				if ii.signed {
+					t = in.st.SExt(t, 64)
+				} else {
+					t = in.st.ZExt(t, 64)
+				}
+			}
+			return in.formatSymInt(in.cur, t, ii.signed)
 		}
 		if ii.signed {
 			return strconv.FormatInt(c, 10)
@@ -981,6 +992,19 @@ func (in *Interp) formatV(a Iface, verb byte) Value {
 	switch v := a.V.(type) {
 	case string, *SymStr:
 		return v
+	case *term.T:
+		if ii, ok := intInfoOf(a.T); ok && verb != 's' {
+			t := v
+			if ii.w < 64 {
+				if ii.signed {
+					t = in.st.SExt(t, 64)
+				} else {
+					t = in.st.ZExt(t, 64)
+				}
+			}
+			return in.formatSymInt(in.cur, t, ii.signed)
+		}
+		in.unsupported("fmt %v of symbolic scalar")
 	case int64:
 		if verb == 's' {
 			return "%!s(" + typeStringForFmt(a.T) + "=" + strconv.FormatInt(v, 10) + ")"
@@ -1002,8 +1026,6 @@ func (in *Interp) formatV(a Iface, verb byte) Value {
 			return fmt.Sprint(float32(v))
 		}
 		return fmt.Sprint(v)
-	case *term.T:
-		in.unsupported("fmt %v of symbolic scalar")
 	case []Value:
 		if eb, ok := a.T.Underlying().(*types.Slice); ok {
 			var out Value = "["
@@ -1099,6 +1121,52 @@ func sortKVs(x interface{}, less func(i, j int) bool, swap func(i, j int)) {
 
 func typeStringForFmt(t types.Type) string {
 	return types.TypeString(t, func(p *types.Package) string { return p.Name() })
+}
+
+// formatSymInt renders a symbolic 64-bit integer in base 10 by interpreting strconv.FormatInt / FormatUint.
+func (in *Interp) formatSymInt(caller *frame, v Value, signed bool) Value {
+	pkg := in.prog.ImportedPackage("strconv")
+	name := "FormatInt"
+	if !signed {
+		name = "FormatUint"
+	}
+	f := pkg.Func(name)
+	if f.Blocks == nil {
+		pkg.Build()
+	}
+	return in.callSSA(caller, f, in.plainInfo(f), []Value{v, int64(10)}, nil)
+}
+
+// plainInfo builds register numbering for fn without consulting the intrinsic tables (used to run the library's own
+// body of a function that is normally intercepted).
+func (in *Interp) plainInfo(fn *ssa.Function) *fnInfo {
+	if fi, ok := in.plain[fn]; ok {
+		return fi
+	}
+	fi := &fnInfo{idx: map[ssa.Value]int{}, name: fn.String()}
+	n := 0
+	for _, p := range fn.Params {
+		fi.idx[p] = n
+		n++
+	}
+	for _, fv := range fn.FreeVars {
+		fi.idx[fv] = n
+		n++
+	}
+	for _, b := range fn.Blocks {
+		for _, ins := range b.Instrs {
+			if v, ok := ins.(ssa.Value); ok {
+				fi.idx[v] = n
+				n++
+			}
+		}
+	}
+	fi.nregs = n
+	if in.plain == nil {
+		in.plain = map[*ssa.Function]*fnInfo{}
+	}
+	in.plain[fn] = fi
+	return fi
 }
 
 // lookupMethod finds an exported method by name in the method set of t (nil if absent).
